@@ -388,6 +388,10 @@ package task
 //@   ensures result == nil && shFailed ==> shExit && t.Cmds[i].IgnoreError                             [C03]
 // ... and ignore_error on the command covers every exit status (1..255) of that command
 //@   ensures shFailed && shExit && t.Cmds[i].IgnoreError ==> result == nil                             [C03]
+// ... and a failure of the command that is NOT suppressed reaches the caller as the very error the shell returned: the
+// exit status that defer: entries see as .EXIT_CODE (C14) and that --exit-code ends the invocation with (C03) is read
+// from it, so a wrapper put around it (or another error returned in its place) loses the status
+//@   ensures shFailed && result != nil ==> result == shErr                                             [C14,C03]
 //@   ensures nestFailed ==> result != nil     -- whatever made the called task fail (a command, a guard, the call limit that ends a cycle) fails the caller   [C03,C07,C13]
 
 // A deferred entry runs with a context that is NOT cancelled with the (possibly cancelled) task context, sees
